@@ -135,7 +135,7 @@ type reqState struct {
 	sim    *core.Sim
 	mr     *muxRun
 
-	cSlot, hSlot, sSlot, fSlot, kSlot, bSlot *core.Slot
+	cSlot, hSlot, sSlot, fSlot, kSlot, bSlot, h2Slot *core.Slot
 
 	httpReq *http.Request
 	wire    []byte
@@ -393,7 +393,13 @@ func (r *reqState) encode() {
 					junk = nil // flagged compressed, zero bytes long: not even a gzip header
 				}
 			}
-			w = append(w, 1, 0, 0, byte(len(junk)>>8), byte(len(junk)))
+			flag := byte(1)
+			if len(sp.Msgs) > 0 && sp.Msgs[0].Seed%5 == 4 {
+				// ... or not compressed at all, just not a message: the codec
+				// refuses it (and may want to quote it in its error)
+				flag, junk = 0, append([]byte{0xff, 0xff, 0xff, 0xff, 0x0f, 0x07}, patternBytes(sp.Msgs[0].Seed, 40)...)
+			}
+			w = append(w, flag, 0, 0, byte(len(junk)>>8), byte(len(junk)))
 			w = append(w, junk...)
 		}
 		if sp.Proto == "grpcwebtext" {
@@ -510,8 +516,12 @@ func (r *reqState) encode() {
 	}
 	r.wire = w
 	r.end = len(w)
+	rawQuery := ""
+	if i := strings.IndexByte(path, '?'); i >= 0 && sp.Raw != nil {
+		path, rawQuery = path[:i], path[i+1:]
+	}
 	req := &http.Request{
-		Method: meth, URL: &url.URL{Path: path}, Proto: fmt.Sprintf("HTTP/%d.%d", major, minor), ProtoMajor: major, ProtoMinor: minor,
+		Method: meth, URL: &url.URL{Path: path, RawQuery: rawQuery}, Proto: fmt.Sprintf("HTTP/%d.%d", major, minor), ProtoMajor: major, ProtoMinor: minor,
 		Header: h, Body: simBody{r.q}, ContentLength: -1, Host: "sim.test", RemoteAddr: "10.0.0.1:1234", RequestURI: path,
 	}
 	if sp.Proto == "ws" {
@@ -944,6 +954,9 @@ func runMuxScenario(t *testing.T, sc *MuxScenario, tape *core.Tape) (mr *muxRun)
 			rs.cSlot = sim.NewSlot(name+".client", cw)
 			rs.sSlot = sim.NewSlot(name+".srv", w)
 			rs.hSlot = sim.NewSlot(name+".h", w)
+			if hasOp(sp.Handler, "duplex") {
+				rs.h2Slot = sim.NewSlot(name+".h2", w) // the handler's second goroutine
+			}
 			if sp.Backend != "" || len(sc.Backends) > 0 {
 				rs.bSlot = sim.NewSlot(name+".bh", w)
 			}
@@ -1126,6 +1139,9 @@ func (mr *muxRun) globalInvariants(prop string) *Violation {
 	}
 	if mr.sim == nil {
 		return violationf(prop, "harness-no-simulation", "harness", "the bubble did not start: %s", mr.bubblePanic)
+	}
+	if w := mr.sim.LockWaiters(); len(w) > 0 {
+		return violationf(prop, "request-waited-for-registration", "Mux.mu", "serving tasks %v had to wait for the Mux's registration mutex while a registration or removal held it: requests are served beside registrations, not behind them", w)
 	}
 	if len(mr.openRefl) > 0 {
 		return violationf(prop, "reflection-stream-left-open", "RegisterConn", "every RegisterConn call had returned, yet reflection streams were still open on %v (the caller's context lives on, as context.Background() would): each such call leaves one more stream on the connection the requests use%s", mr.openRefl, mr.regErrors())
